@@ -449,6 +449,7 @@ type Cond struct {
 	Expr   *Expr   `json:"expr"`
 	Via    string  `json:"via"`  // "dsl" or "proto"
 	Mode   int     `json:"mode"` // 0 NewUncompiled; 1 + WithTrackEvaluationCost/WithMaxEvaluationCost/WithInterruptCheckFrequency
+	Cel    string  `json:"cel,omitempty"` // the expression text (information only; rebuilt from Expr)
 }
 
 func (c *Cond) paramsRec() rec.V {
@@ -809,8 +810,45 @@ func randFloat(r *rec.Rand) float64 {
 	}
 }
 
+// literals of the expression per scalar kind, as context values: contexts built from them make
+// the comparisons of the expression flip
+type hints map[int][]Val
+
+func (e *Expr) collect(h hints) {
+	if e == nil {
+		return
+	}
+	switch e.T {
+	case eStr:
+		h[tString] = append(h[tString], str(e.S))
+	case eInt, eUint:
+		k := tInt
+		if e.T == eUint {
+			k = tUint
+		}
+		f, _ := strconv.ParseFloat(e.I, 64)
+		if strconv.FormatFloat(f, 'f', 0, 64) == e.I {
+			h[k] = append(h[k], num(f))
+		} else {
+			h[k] = append(h[k], str(e.I))
+		}
+	case eDouble:
+		h[tDouble] = append(h[tDouble], num(e.float()))
+	}
+	e.A.collect(h)
+	e.Bx.collect(h)
+	for _, x := range e.L {
+		x.collect(h)
+	}
+}
+
+var curHints hints
+
 // a value of the right kind for the type (it may still fail the conversion for numeric edge cases)
 func genValid(r *rec.Rand, t PT, edge bool) Val {
+	if !edge && isScalar(t.K) && len(curHints[t.K]) > 0 && r.Chance(1, 2) {
+		return pick(r, curHints[t.K])
+	}
 	switch t.K {
 	case tBool:
 		return boolean(r.Bool())
@@ -854,16 +892,25 @@ func genValid(r *rec.Rand, t PT, edge bool) Val {
 	case tMap:
 		v := Val{K: vMap, M: map[string]Val{}}
 		for _, k := range mapKeys {
-			if r.Chance(1, 2) {
+			if r.Chance(1, 2) || (!edge && r.Chance(2, 3)) {
 				v.M[k] = genValid(r, *t.E, edge && r.Chance(1, 2))
 			}
 		}
 		return v
 	case tTimestamp:
+		if !edge {
+			return str(pick(r, []string{"2024-01-02T03:04:05Z", "2024-01-02T03:04:05+01:00", "1999-12-31T23:59:59.5Z"}))
+		}
 		return str(pick(r, []string{"2024-01-02T03:04:05Z", "2024-01-02T03:04:05+01:00", "2024-01-02 03:04:05", "2024-13-02T03:04:05Z", "1", ""}))
 	case tDuration:
+		if !edge {
+			return str(pick(r, []string{"1h", "10s", "1h30m", "-5ms"}))
+		}
 		return str(pick(r, []string{"1h", "10s", "1h30m", "-5ms", "1d", "abc", "1", ""}))
 	case tIpaddr:
+		if !edge {
+			return str(pick(r, []string{"192.168.0.1", "::1", "::ffff:10.0.0.1"}))
+		}
 		return str(pick(r, []string{"192.168.0.1", "::1", "::ffff:10.0.0.1", "192.168.0.256", "10.0.0.0/8", "host", ""}))
 	}
 	return genAny(r, 2)
@@ -1026,6 +1073,17 @@ func (g *gen) operand(k int, preferParam bool) *Expr {
 	return g.literal(k)
 }
 
+func isLiteral(e *Expr) bool { return e.T <= eDouble }
+
+// an operand that is not a literal, when the parameters allow one
+func (g *gen) nonLiteral(k int) *Expr {
+	e := g.operand(k, true)
+	for i := 0; i < 8 && isLiteral(e); i++ {
+		e = g.operand(k, true)
+	}
+	return e
+}
+
 func (g *gen) atom() *Expr {
 	r := g.r
 	for try := 0; try < 8; try++ {
@@ -1057,7 +1115,7 @@ func (g *gen) atom() *Expr {
 				for i := r.Range(1, 3); i > 0; i-- {
 					lit.L = append(lit.L, g.literal(k))
 				}
-				return &Expr{T: eIn, A: g.operand(k, true), Bx: lit}
+				return &Expr{T: eIn, A: g.nonLiteral(k), Bx: lit}
 			}
 		default: // comparison
 			var ks []int
@@ -1077,7 +1135,10 @@ func (g *gen) atom() *Expr {
 			if r.Chance(1, 3) {
 				op = r.Intn(2)
 			}
-			a, b := g.operand(k, true), g.operand(k, false)
+			a, b := g.nonLiteral(k), g.operand(k, false)
+			for i := 0; i < 8 && a.cel() == b.cel() && !r.Chance(1, 30); i++ {
+				b = g.operand(k, false)
+			}
 			if r.Bool() {
 				a, b = b, a
 			}
@@ -1149,6 +1210,17 @@ func genCond(r *rec.Rand) *Cond {
 	for _, n := range names {
 		c.Params = append(c.Params, Param{N: n, T: genType(r, nonDSL)})
 	}
+	if np > 0 && r.Chance(9, 10) { // make sure the expression has a fragment parameter to talk about
+		usable := false
+		for _, p := range c.Params {
+			if isScalar(p.T.K) || (p.T.K == tMap && isScalar(p.T.E.K)) {
+				usable = true
+			}
+		}
+		if !usable {
+			c.Params[r.Intn(np)].T = PT{K: pick(r, []int{tBool, tString, tInt, tUint, tDouble})}
+		}
+	}
 	g := &gen{r: r, ps: c.Params}
 	c.Via = "proto"
 	switch {
@@ -1165,17 +1237,21 @@ func genCond(r *rec.Rand) *Cond {
 	if c.Via != "bad" && c.dslOK() && r.Chance(4, 5) {
 		c.Via = "dsl"
 	}
+	c.Cel = c.Expr.cel()
 	return c
 }
 
 // the (request, stored) pairs for one condition
 func genContexts(r *rec.Rand, c *Cond, n int) []*Case {
 	var out []*Case
+	curHints = hints{}
+	c.Expr.collect(curHints)
+	defer func() { curHints = nil }()
 	for i := 0; i < n; i++ {
 		cs := &Case{Kind: 1, Cond: c, TName: c.Name, EC: true, Req: Ctx{}, Stored: Ctx{}}
-		// the first third: complete and valid contexts with varying values (so that the expression
+		// the first half: complete and valid contexts with varying values (so that the expression
 		// is exercised); then adversarial ones
-		adversarial := i >= (n+2)/3
+		adversarial := i >= (n*4+6)/7
 		for _, p := range c.Params {
 			where := r.Intn(4) // 0 request, 1 stored, 2 both (agree), 3 both (conflict)
 			v := genValid(r, p.T, false)
@@ -1331,9 +1407,9 @@ func main() {
 	}
 	clsNames := []string{"met", "not_met", "err_notfound", "err_type", "err_missing", "err_runtime", "err_compile", "panic", "err_other"}
 	// o.N = number of evaluation cases; one condition gets perCond contexts; as many direct converter cases
-	perCond := 12
+	perCond := 14
 	if o.Tier == "thorough" {
-		perCond = 16
+		perCond = 21
 	}
 	for done := 0; done < o.N; {
 		cr := r.Fork()
